@@ -43,7 +43,8 @@ func LinearAttempt(ctx context.Context, rate time.Duration, count int) <-chan ti
 		close(c)
 		return c
 	}
-	c <- time.Now()
+	last := time.Now()
+	c <- last
 	count--
 	if count <= 0 {
 		close(c)
@@ -66,8 +67,13 @@ func LinearAttempt(ctx context.Context, rate time.Duration, count int) <-chan ti
 				return
 			}
 			verifHook("attempt.send")
+			if t.Before(last) {
+				// tick times are not guaranteed to be ordered (they are adjusted, using a later reading of the clock)
+				t = last
+			}
 			select {
 			case c <- t:
+				last = t
 				i++
 			default:
 				// slow consumer, retry send next tick
